@@ -1,43 +1,16 @@
 /-
-  Bridge: the integer kernels and tables regenerated from /repo's `make_file_header` / `to_string`
-  (`Gen.Cphd.*` from CPHD.py, `Gen.Crsd.*` from CRSD.py; translate/gen_cphd.py) compute the reference
-  definitions of `Spec.CphdLayout` / `Spec.CphdHeaderText`.  Only shallow automation (unfold / simp / omega /
-  split / decide): a harmless rewrite of the Python keeps these proofs alive, a semantic change (a dropped
-  `_align`, accumulating from the unaligned end, swapped blocks, another slack or terminator length, a renamed or
-  re-ordered header field, another line format) makes them fail.
-
-  The theorems live in the namespaces of the properties that require them (C09: CPHD, C11: CRSD).
+  Bridge (CPHD): the integer kernels and tables regenerated from /repo's `CPHDType.make_file_header` / `CPHDHeader.to_string`
+  (`Gen.Cphd.*`, translate/gen_cphd.py) compute the reference definitions of `Spec.CphdLayout` / `Spec.CphdHeaderText`.
+  Only shallow automation (unfold / simp / omega / split / decide): a harmless rewrite of the Python keeps these proofs alive, a
+  semantic change (a dropped `_align`, accumulating from the unaligned end, swapped blocks, another slack or terminator length, a
+  renamed or re-ordered header field, another line format) makes them fail.  The CRSD twin is Bridge/Crsd.lean; the two modules do
+  not import each other, so a change of CRSD.py does not touch the C09 obligations and vice versa.
 -/
 import SarpyModel.Gen.CphdKernels
 import SarpyModel.Spec.CphdLayout
 import SarpyModel.Spec.CphdHeaderText
+import SarpyModel.Bridge.CphdCommon
 set_option linter.unusedSimpArgs false
-
-namespace Sarpy.Bridge.Cphd
-open Sarpy Sarpy.Spec.CphdLayout
-
-/-- `int(numpy.ceil(float(v)/64)*64)` on a natural number is `align` -/
-theorem ceilDiv64 (v : Nat) : ceilDiv (v : Int) 64 = .ok ((((v + 63) / 64 : Nat) : Int)) := by
-  unfold ceilDiv
-  have h : Int.fdiv (-(v : Int)) 64 = -((((v + 63) / 64 : Nat)) : Int) := by
-    rw [Int.fdiv_eq_ediv_of_nonneg _ (by omega)]; omega
-  rw [h]
-  simp [pure, Except.pure]
-
-/-- the integer header attributes of a layout as Python integers -/
-def headerIntsZ (b : Blocks) : Option Int × Option Int × Option Int × Option Int × Option Int × Option Int × Option Int × Option Int :=
-  (some (b.xmlSize : Int), some (b.xmlOff : Int), b.supp.map (fun p => (p.2 : Int)), b.supp.map (fun p => (p.1 : Int)),
-   some (b.pvpSize : Int), some (b.pvpOff : Int), some (b.sigSize : Int), some (b.sigOff : Int))
-
-/-- the SUPPORT block exists iff `Data.NumSupportArrays > 0` -/
-def suppOf (numSupport suppSize : Nat) : Option Nat := if 0 < numSupport then some suppSize else none
-
-/-- evaluate the `Except` plumbing of a translated kernel with the given rewrite facts, then let `simp` close the casts -/
-macro "cphd_simp" "[" ts:Lean.Parser.Tactic.simpLemma,* "]" : tactic =>
-  `(tactic| (simp only [getI, bind, Except.bind, pure, Except.pure, decide_true, decide_false, if_true, if_false, ite_true, ite_false,
-                        Bool.false_eq_true, $ts,*] <;> try simp))
-
-end Sarpy.Bridge.Cphd
 
 /-! ### CPHD (sarpy/io/phase_history/cphd1_elements/CPHD.py) -/
 namespace Sarpy.Props.C09
@@ -83,48 +56,3 @@ theorem gen_header_tables :
     Gen.Cphd.terminator = [12, 10] := by decide
 
 end Sarpy.Props.C09
-
-/-! ### CRSD (sarpy/io/received/crsd1_elements/CRSD.py) -/
-namespace Sarpy.Props.C11
-open Sarpy Sarpy.Spec.CphdLayout Sarpy.Spec.CphdHeaderText Sarpy.Bridge.Cphd
-
-theorem gen_align (v : Nat) : Gen.Crsd.chain_align (v : Int) = .ok ((align v : Nat) : Int) := by
-  unfold Gen.Crsd.chain_align align
-  cphd_simp [ceilDiv64]
-
-theorem gen_retry_align (v : Nat) : Gen.Crsd.retry_align (v : Int) = .ok ((align v : Nat) : Int) := by
-  unfold Gen.Crsd.retry_align align
-  cphd_simp [ceilDiv64]
-
-/-- **one attempt of `CRSDType.make_file_header`** (regenerated code) computes `layout`, for all sizes -/
-theorem gen_chain (xo xs ns ss ps gs : Nat) :
-    Gen.Crsd.chain xo xs ns ss ps gs = .ok (headerIntsZ (layout xo xs (suppOf ns ss) ps gs)) := by
-  unfold Gen.Crsd.chain suppOf
-  have e1 : ((xo : Int) + xs + 2) = ((xo + xs + 2 : Nat) : Int) := by omega
-  by_cases h : 0 < ns
-  · have h' : ((ns : Int) > 0) := by omega
-    have e2 : ((align (xo + xs + 2) : Nat) : Int) + ss = ((align (xo + xs + 2) + ss : Nat) : Int) := by omega
-    have e3 : ((align (align (xo + xs + 2) + ss) : Nat) : Int) + ps = ((align (align (xo + xs + 2) + ss) + ps : Nat) : Int) := by omega
-    cphd_simp [h, h', e1, e2, e3, gen_align, layout, headerIntsZ]
-  · have h' : ¬ ((ns : Int) > 0) := by omega
-    have e3 : ((align (xo + xs + 2) : Nat) : Int) + ps = ((align (xo + xs + 2) + ps : Nat) : Int) := by omega
-    cphd_simp [h, h', e1, e3, gen_align, layout, headerIntsZ]
-
-/-- **the retry decision of `CRSDType.make_file_header`** (regenerated code) is `retryOffset` -/
-theorem gen_retry (xo h : Nat) :
-    Gen.Crsd.retry xo h = .ok ((retryOffset xo h).map (fun v => (v : Int))) := by
-  unfold Gen.Crsd.retry retryOffset
-  have e : ((h : Int) + 2 + 32) = ((h + 2 + 32 : Nat) : Int) := by omega
-  by_cases c : xo < h + 2
-  · have c' : (xo : Int) < (h : Int) + 2 := by omega
-    cphd_simp [c, c', e, gen_retry_align]
-  · have c' : ¬ (xo : Int) < (h : Int) + 2 := by omega
-    cphd_simp [c, c']
-
-/-- the tables of `CRSDHeader` regenerated from the class are the ones the header text model uses -/
-theorem gen_header_tables :
-    Gen.Crsd.hdr_fields = fieldNames ∧ Gen.Crsd.hdr_int_fields = fieldNames.take 8 ∧
-    Gen.Crsd.first_fmt = firstFmtCrsd ∧ Gen.Crsd.line_fmt = lineFmt ∧ Gen.Crsd.join_sep = "" ∧
-    Gen.Crsd.terminator = [12, 10] := by decide
-
-end Sarpy.Props.C11
